@@ -72,10 +72,13 @@ def write_xlsx(book: dict) -> bytes:
     wrels = []
     sheets_xml = ""
     overrides = ""
-    for n, sh in enumerate(book["sheets"], start=1):
-        rid = f"rId{n}"
+    nsheets = len(book["sheets"])
+    for logical, sh in enumerate(book["sheets"], start=1):
+        # sheet FILES are numbered in reverse: workbook.xml + relationships define the order
+        n = nsheets - logical + 1
+        rid = f"rId{logical}"
         wrels.append((rid, f"{REL}/worksheet", f"worksheets/sheet{n}.xml", False))
-        sheets_xml += f'<sheet name="{escape(sh["name"], {chr(34): "&quot;"})}" sheetId="{n}" r:id="{rid}"/>'
+        sheets_xml += f'<sheet name="{escape(sh["name"], {chr(34): "&quot;"})}" sheetId="{logical}" r:id="{rid}"/>'
         overrides += (f'<Override PartName="/xl/worksheets/sheet{n}.xml" ContentType="application/vnd.openxmlformats-'
                       'officedocument.spreadsheetml.worksheet+xml"/>')
         rows = ""
